@@ -1301,6 +1301,28 @@ fn c06(ctx: &mut Ctx) {
             o
         };
         let keys: Vec<(String, Fr)> = ev.keys().cloned().collect();
+        // (0) the query set names a combination that does not exist (at the last point label, so that
+        // earlier point labels have been processed): both sides refuse
+        {
+            let g = groups.last().unwrap();
+            let mut q2 = qs.clone();
+            let mut e2 = ev.clone();
+            q2.insert(("nolc".to_string(), (g.0.clone(), g.1)));
+            e2.insert(("nolc".to_string(), g.1), Fr::rand(&mut rng));
+            let id = format!("{}/unknown-combination", id0);
+            let mut sp2 = LogSponge::fresh();
+            let (r2, _) = lc_open(ctx, &mut rng, &format!("{}/prover", id), &c, &cs, &lcs, &q2, &mut sp2);
+            if matches!(r2, Ok(Ok(_))) {
+                ctx.rep.expect_fail(&id, "sonic/lc-unknown-combination-opened", "open_combinations answered a query naming a combination that does not exist", replay(&c, &id, ctx.seed, &desc));
+            }
+            let mut vs2 = LogSponge::fresh();
+            let (o, k2, _) = lc_check(ctx, &mut rng, &format!("{}/verifier", id), &c, &cs, &lcs, &q2, &e2, &ws, &rvs, &mut vs2, false);
+            if o == Outcome3::Accept {
+                ctx.rep.expect_fail(&id, "sonic/lc-false-accepted/unknown-combination", "check_combinations accepted a query naming a combination that does not exist", replay(&c, &id, ctx.seed, &desc));
+            }
+            ctx.rep.count(&format!("sonic/lc-unknown-combination/{}/{}", kind_of(&r2), k2));
+            ctx.rep.case(&format!("sonic lc unknown-combination prover={} verifier={}", kind_of(&r2), k2), Some(format!("sonic-lc/unknown-combination/{}", groups.len())));
+        }
         // (1) claimed value changed, at every claim position
         for k in 0..keys.len() {
             let mut e2 = ev.clone();
